@@ -419,10 +419,20 @@ def install_calls():
         if kind is not None:
             r = ex.alloc_ref(st, kind)
             ex.reg.used_opaque.add(fq)
+            hook = getattr(ex.reg, "opaque_ctor_hooks", {}).get(fq)
+            if hook is not None:
+                hook(ex, st, r, args, e)
             return mk_ref(r, kind)
-        if isinstance(cls, type) and issubclass(cls, dict) and hasattr(cls, "entry_objs") and not args and not kwargs:
+        if isinstance(cls, type) and issubclass(cls, dict) and hasattr(cls, "entry_objs") and not args:
+            # fixed-entry dictionary built from keyword arguments: undeclared names raise FixedDictKeyError (C27)
+            for k in kwargs:
+                if k not in cls.entry_objs:
+                    raise Unsupported("fixeddict constructor with undeclared key %s" % k, e)
             r = ex.alloc_ref(st, "dict:" + cls.__name__)
-            return mk_ref(r, "dict:" + cls.__name__)
+            ref = mk_ref(r, "dict:" + cls.__name__)
+            for k, v in kwargs.items():
+                ex.store_key(st, ref, k, v, e)
+            return ref
         return base_class_call(ex, st, cls, args, kwargs, e)
 
     C.class_call = class_call
